@@ -2,9 +2,9 @@
 impl Message for u8 {
     open spec fn mv(&self) -> MV { MV::U8(*self) }
     #[verifier::external_body]
-    fn write(&self, writer: &mut impl Write) -> (r: RdpResult<()>) { unimplemented!() }
+    fn write<W: Write>(&self, writer: &mut W) -> (r: RdpResult<()>) { unimplemented!() }
     #[verifier::external_body]
-    fn read(&mut self, reader: &mut impl Read) -> (r: RdpResult<()>)
+    fn read<R: Read>(&mut self, reader: &mut R) -> (r: RdpResult<()>)
         ensures r is Ok ==> old(reader).rest().len() >= 1 && *final(self) == old(reader).rest()[0] && final(reader).rest() == old(reader).rest().skip(1),
             final(reader).wr() == old(reader).wr(),
     { unimplemented!() }
@@ -16,23 +16,12 @@ impl Message for u8 {
     fn options(&self) -> (r: MessageOption) { unimplemented!() }
 }
 
-impl<Type: Copy> Value<Type> {
-    pub open spec fn val(&self) -> Type { match *self { Value::BE(e) => e, Value::LE(e) => e } }
-    pub fn inner(&self) -> (r: Type)
-        ensures r == self.val()
-    {
-        match self {
-            Value::<Type>::BE(e) | Value::<Type>::LE(e) => *e
-        }
-    }
-}
-
 impl Message for U16 {
     open spec fn mv(&self) -> MV { match *self { Value::BE(v) => MV::U16(v, false), Value::LE(v) => MV::U16(v, true) } }
     #[verifier::external_body]
-    fn write(&self, writer: &mut impl Write) -> (r: RdpResult<()>) { unimplemented!() }
+    fn write<W: Write>(&self, writer: &mut W) -> (r: RdpResult<()>) { unimplemented!() }
     #[verifier::external_body]
-    fn read(&mut self, reader: &mut impl Read) -> (r: RdpResult<()>)
+    fn read<R: Read>(&mut self, reader: &mut R) -> (r: RdpResult<()>)
         ensures r is Ok ==> old(reader).rest().len() >= 2 && ((*old(self)) is LE <==> (*final(self)) is LE)
                 && final(self).val() == dec16(old(reader).rest(), (*old(self)) is LE) && final(reader).rest() == old(reader).rest().skip(2),
             final(reader).wr() == old(reader).wr(),
@@ -48,9 +37,9 @@ impl Message for U16 {
 impl Message for U32 {
     open spec fn mv(&self) -> MV { match *self { Value::BE(v) => MV::U32(v, false), Value::LE(v) => MV::U32(v, true) } }
     #[verifier::external_body]
-    fn write(&self, writer: &mut impl Write) -> (r: RdpResult<()>) { unimplemented!() }
+    fn write<W: Write>(&self, writer: &mut W) -> (r: RdpResult<()>) { unimplemented!() }
     #[verifier::external_body]
-    fn read(&mut self, reader: &mut impl Read) -> (r: RdpResult<()>)
+    fn read<R: Read>(&mut self, reader: &mut R) -> (r: RdpResult<()>)
         ensures r is Ok ==> old(reader).rest().len() >= 4 && ((*old(self)) is LE <==> (*final(self)) is LE)
                 && final(self).val() == dec32(old(reader).rest(), (*old(self)) is LE) && final(reader).rest() == old(reader).rest().skip(4),
             final(reader).wr() == old(reader).wr(),
@@ -66,10 +55,10 @@ impl Message for U32 {
 impl Message for Vec<u8> {
     open spec fn mv(&self) -> MV { MV::Bytes(self@) }
     #[verifier::external_body]
-    fn write(&self, writer: &mut impl Write) -> (r: RdpResult<()>) { unimplemented!() }
+    fn write<W: Write>(&self, writer: &mut W) -> (r: RdpResult<()>) { unimplemented!() }
     /// an empty Vec reads to the end of the (sub-)stream, a sized one reads exactly its size
     #[verifier::external_body]
-    fn read(&mut self, reader: &mut impl Read) -> (r: RdpResult<()>)
+    fn read<R: Read>(&mut self, reader: &mut R) -> (r: RdpResult<()>)
         ensures
             r is Ok && old(self)@.len() == 0 ==> final(self)@ == old(reader).rest() && final(reader).rest().len() == 0,
     { unimplemented!() }
@@ -84,9 +73,9 @@ impl Message for Vec<u8> {
 impl<T: Message> Message for Check<T> {
     open spec fn mv(&self) -> MV { MV::Check(Box::new(self.value.mv())) }
     #[verifier::external_body]
-    fn write(&self, writer: &mut impl Write) -> (r: RdpResult<()>) { unimplemented!() }
+    fn write<W: Write>(&self, writer: &mut W) -> (r: RdpResult<()>) { unimplemented!() }
     #[verifier::external_body]
-    fn read(&mut self, reader: &mut impl Read) -> (r: RdpResult<()>) { unimplemented!() }
+    fn read<R: Read>(&mut self, reader: &mut R) -> (r: RdpResult<()>) { unimplemented!() }
     #[verifier::external_body]
     fn length(&self) -> (r: u64) { unimplemented!() }
     #[verifier::external_body]
@@ -98,10 +87,10 @@ impl<T: Message> Message for Check<T> {
 impl<T: Message> Message for Option<T> {
     open spec fn mv(&self) -> MV { MV::Opt(match *self { Some(v) => Some(Box::new(v.mv())), None => None }) }
     #[verifier::external_body]
-    fn write(&self, writer: &mut impl Write) -> (r: RdpResult<()>) { unimplemented!() }
+    fn write<W: Write>(&self, writer: &mut W) -> (r: RdpResult<()>) { unimplemented!() }
     /// never fails: an inner failure turns the field into None
     #[verifier::external_body]
-    fn read(&mut self, reader: &mut impl Read) -> (r: RdpResult<()>)
+    fn read<R: Read>(&mut self, reader: &mut R) -> (r: RdpResult<()>)
         ensures r is Ok
     { unimplemented!() }
     #[verifier::external_body]
